@@ -723,6 +723,7 @@ func c16RunToString(r *harness.Run, pool *c16Pool) {
 
 func runC16(r *harness.Run) {
 	runPinned(r, "C16")
+	c16SignedHex(r)
 	numLen := 5
 	if r.Thorough() {
 		numLen = 7
